@@ -3,6 +3,7 @@ package main
 import (
 	"fmt"
 	"go/types"
+	"regexp"
 	"strings"
 )
 
@@ -38,8 +39,15 @@ type elemKey struct {
 }
 
 func typeKey(t types.Type) string {
-	return types.TypeString(t, func(p *types.Package) string { return p.Path() })
+	s := types.TypeString(types.Unalias(t), func(p *types.Package) string { return p.Path() })
+	// universe aliases: byte = uint8, rune = int32 (also inside composite type strings)
+	s = byteRe.ReplaceAllString(s, "${1}uint8")
+	s = runeRe.ReplaceAllString(s, "${1}int32")
+	return s
 }
+
+var byteRe = regexp.MustCompile(`(^|[^\w./])byte\b`)
+var runeRe = regexp.MustCompile(`(^|[^\w./])rune\b`)
 
 func isAggregate(t types.Type) bool {
 	switch t.Underlying().(type) {
